@@ -72,6 +72,41 @@ SEEDS = {
               'PragmaAttacher.visit_tuple[... post=False]/post/pragmas-still-attached-after-detach'),
     'C16_2': ('C16', 'PragmaRegionDetacher gains visit_LeafNode returning the node', 'a pragma region inside a SELECT CASE branch', 'MISSED (region visitors were named unverified)',
               'PragmaRegionDetacher dispatch for MultiConditional/post/statements-inside-MultiConditional-are-visited (added)'),
+    # ---- round 3: one more breaking change per property, in a different function than the earlier two ----------------
+    'C08_3': ('C08', 'distribute_product overwrites the saved denominators: (a/b)*(c/d) -> a*c / d', 'Flatten, two quotient factors of one product on the same level', 'caught',
+              'bounded/distribute_product[R], bounded/flatten_expr[R], bounded/simplify[Flatten][R]'),
+    'C09_3': ('C09', 'distribute_product takes the sign from count(-1) == 1 instead of the parity', 'an n-ary product with three sign-carrying factors (operator-built trees)', 'MISSED (C09 uses simplify through its C08 contract)',
+              'bounded/symbolic_op (native cross-check added to C09); C08: bounded/distribute_product[R] (sign family added)'),
+    'C10_3': ('C10', 'iteration_number strips the minus of a unary-minus step without reversing the numerator', 'a negative step in unary-minus form, an iteration after the first', 'caught',
+              'bounded/loop-range-helpers + CHECKER-ERROR (new helper call without contract)'),
+    'C12_3': ('C12', 'Scope.update decides "declared?" by a recursive lookup and inherits the outer attributes', 'nested scopes, a name declared only in an enclosing scope', 'MISSED (Scope methods were not under contract)',
+              'Scope.update[...]/post/entry-is-the-local-entry-updated-or-a-new-one, updates-only-a-local-declaration-when-asked-to-fail (added, replayed)'),
+    'C13_3': ('C13', 'Variable.__new__ regrouped: a deferred type with a recorded shape and no subscripts becomes DeferredTypeSymbol', 'BasicType.DEFERRED (falsy) with shape, no dimensions', 'caught',
+              'Variable.__new__[type=...,dimensions=absent]/post/class-per-decision-table'),
+    'C22_3': ('C22', '_populate_filegraph widens the item filter with _get_item_filter', 'file-graph traversal, a file holding only a type definition and a binding chain', 'MISSED',
+              'native/scheduler (second project, files-visited clause added; bounded)'),
+    'C23_3': ('C23', 'create_from_ir no longer lower-cases imported symbol names', 'USE mod, ONLY: My_Type, MY_FUNC with upper-case letters', 'MISSED',
+              'native/case-permuted-project (added; bounded)'),
+    'C24_3': ('C24', 'the CLI adds header directories to the search path only for a full parse (convert), not in plan mode', 'CLI entry point, a --header file outside every --source path, part of the call tree next to it', 'MISSED (CLI was named unverified)',
+              'native/cli-plan-vs-convert (added; bounded)'),
+    'C26_3': ('C26', 'visit_MaskedStatement visits the final ELSEWHERE body with the accumulated defines', 'WHERE with an un-masked ELSEWHERE reading an array written in an earlier branch', 'caught, replayed',
+              'DataflowAnalysisAttacher.visit_MaskedStatement[*]/post/uses-cover-reads; native/visit_MaskedStatement'),
+    'C27_3': ('C27', 'FindWrites.visit_Loop discards the induction variable even when inactive', 'a scalar assigned before the inspection point and reused later as a DO variable', 'caught (native corpus)',
+              'native/FindReads.visit_Loop/35'),
+    'C44_3': ('C44', '_build_objs skips waiting for dependencies that are not listed in the library', 'workers > 1, a Lib whose objs are a subset of the builder source tree', 'exit 3 (closure variable self unbound in the spec)',
+              'Lib.build._build_objs[workers>1]/inv#2/preserved/waited (self bound to an arbitrary object list)'),
+    'C11_3': ('C11', 'StrCompareMixin honours the case_sensitive marker of self only', 'two same-class symbols, exactly one built with case_sensitive=True, names differing in case', 'MISSED (instances had no such attribute)',
+              '*.__eq__[vs *]/post/symmetric, hash-consistent (instances carry an arbitrary case_sensitive flag)'),
+    'C14_3': ('C14', 'visit_Node / visit_ScopedNode treat "mapped to itself" like "not mapped" and descend', 'an identity entry {node: node} plus a mapped descendant', 'MISSED (no identity case)',
+              'Transformer.visit_*[self,n children]/post/handle-is-not-recursed (case added)'),
+    'C15_3': ('C15', 'ExpressionFinder.visit_VariableDeclaration searches only the first symbol\'s initialiser', 'a declaration of several symbols, a later one initialised with an expression', 'MISSED (ExpressionFinder was not under contract)',
+              'ExpressionFinder.visit_VariableDeclaration[...]/post/returns-every-match-of-every-child-in-order (added, replayed)'),
+    'C16_3': ('C16', 'pragmas_attached detaches the spec with detach_pragma_post=False', 'context manager, default post flag, a spec ending in a pragma after its last declaration', 'caught',
+              'pragmas_attached[unit with spec ...]/post/same-node-type-and-post-flag'),
+    'C03_3': ('C03', 'Transformer._rebuild drops the invalidated source clone in in-place mode', 'inplace=True with the conservative back end', 'MISSED (invalidation was delegated to C14, which did not state it)',
+              'Transformer._rebuild[children ...]/post/source-invalidated-when-a-child-node-was-rebuilt (added to C14 and C03)'),
+    'C06_3': ('C06', 'map_sum recurses into the leading term with PREC_SUM', 'a sum whose first child is a negated plain Sum', 'MISSED (negated children were leaves; no binding obligation for a sign)',
+              'LokiStringifyMapper.map_sum[*: NegSum , *]/post/binds:operand of a sign must bind tighter than + -'),
 }
 
 
